@@ -32,7 +32,7 @@ Act ==
   \/ \E d \in Cons, s \in Cons : Copy(d, s, S(s), K(s), FALSE)
   \/ \E d \in Cons, s \in Cons : MoveAssign(d, s)
   \/ \E d \in Cons, s \in Cons : MoveCtor(d, s)
-  \/ \E a \in Cons, b \in Cons : a < b /\ Swap(a, b)
+  \/ \E a \in Cons, b \in Cons : a <= b /\ Swap(a, b)
   \/ Observers /\ \E i \in Cons, k \in SingleKeys : Find(i, k)
   \/ Observers /\ \E i \in Cons : Iterate(i)
   \/ Observers /\ \E i \in Cons : Size(i)
